@@ -320,7 +320,9 @@ def install_patches():
             try:
                 state = project(held.con)
             except Exception as exc:  # noqa: BLE001
-                ses.errors.append(f"projection failed: {exc!r}")
+                # (a query cut short by the CPU watchdog is the watchdog's business, see run_serve)
+                if "interrupted" not in repr(exc):
+                    ses.errors.append(f"projection failed: {exc!r}")
         try:
             res = await orig_aexit(self, et, ev, tb)
         except BaseException as exc:
